@@ -58,6 +58,11 @@ const SITES: &[Site] = &[
     Site { option: "file-style", extra: &[], token: "probe.txt", probe: Probe::Diff, shown: true },
     Site { option: "commit-style", extra: &[], token: "commit", probe: Probe::Diff, shown: true },
     Site { option: "hunk-header-style", extra: &[], token: "FRAGTOKEN", probe: Probe::Diff, shown: false },
+    // the same three header styles under --color-only (decorations are dropped there, text
+    // attributes are not)
+    Site { option: "file-style", extra: &["--color-only"], token: "plusfileline", probe: Probe::Diff, shown: false },
+    Site { option: "commit-style", extra: &["--color-only"], token: "commit", probe: Probe::Diff, shown: false },
+    Site { option: "hunk-header-style", extra: &["--color-only"], token: "FRAGTOKEN", probe: Probe::Diff, shown: false },
     Site { option: "hunk-header-file-style", extra: &["--hunk-header-style=file line-number"], token: "hh:probe.txt", probe: Probe::Diff, shown: false },
     Site { option: "hunk-header-line-number-style", extra: &["--hunk-header-style=file line-number"], token: "hh:10", probe: Probe::Diff, shown: false },
     Site { option: "line-numbers-minus-style", extra: &["--line-numbers"], token: "ln:MINUSUNPAIRED:11", probe: Probe::Diff, shown: false },
@@ -153,6 +158,15 @@ fn site_cells(sc: &Screen, site: &Site) -> Option<Vec<Sgr>> {
                     let cstart = text[..sp].chars().count();
                     return Some(r.cells.iter().skip(cstart).take(1).map(|c| c.st).collect());
                 }
+            }
+        }
+        return None;
+    }
+    if t == "plusfileline" {
+        // --color-only: the `+++ b/probe.txt` line itself is what file-style paints
+        for r in &sc.rows {
+            if r.text().starts_with("+++ b/probe.txt") {
+                return Some(r.cells.iter().take(15).map(|c| c.st).collect());
             }
         }
         return None;
